@@ -641,6 +641,13 @@ async fn directed(inst: &mut Inst, out: &mut Out, which: u64) {
             l_delref(inst, &mut scn, 0, 1).await;
             do_check(inst, &mut scn).await;
         }
+        7 => { // a synchronised version that arrives under ANOTHER entity for a stored id
+            s_nodes(inst, &mut scn, 0, vec![(None, 1, d(0, 5000)), (None, 1, d(0, 6000))]).await;
+            do_compute(inst, &mut scn).await; do_check(inst, &mut scn).await;
+            tick(&mut scn, d(2, 50));
+            s_nodes(inst, &mut scn, 0, vec![(Some(0), 2, d(1, 7000))]).await;
+            do_compute(inst, &mut scn).await; do_check(inst, &mut scn).await;
+        }
         _ => {}
     }
     emit(out, &scn, "directed", &format!("d{}", which));
@@ -738,7 +745,7 @@ async fn main() {
     let mut rng = Rng::from_env();
     let mut inst = Inst::start(&format!("inst{}", seed())).await;
     let only: Option<u64> = std::env::var("VERIF_ONLY").ok().and_then(|s| s.parse().ok());
-    for w in 0..7 { if only.is_none() || only == Some(w) { directed(&mut inst, &mut out, w).await; } }
+    for w in 0..8 { if only.is_none() || only == Some(w) { directed(&mut inst, &mut out, w).await; } }
     let n = if only.is_some() { 0 } else { scale(150, 1500) };
     for i in 0..n {
         let mut r = rng.fork();
